@@ -87,7 +87,7 @@ fn run(rng: &mut Rng, _idx: u64, tier: Tier) -> CaseOut {
     // metamorphic identities on closed g1, g2, evaluated by the library itself
     let (a, b) = (g1.canon(), g2.canon());
     let unit = sys.graph.unit_colored_vertices();
-    let mut ev = |t: &str| -> Option<biodivine_lib_param_bn::symbolic_async_graph::GraphColoredVertices> {
+    let ev = |t: &str| -> Option<biodivine_lib_param_bn::symbolic_async_graph::GraphColoredVertices> {
         match eval_raw(&sys, t, &ctx) {
             Call::Ok(s) => Some(s.intersect(unit)),
             _ => None,
